@@ -81,7 +81,7 @@ def pair_job(nameA, nameB, op, tier):
                 try:
                     with T.time_budget(15):
                         v = solver.check_identity(T.nf(T.Sub(a.outs[i], b.outs[j])), pc=a.pc + b.pc, assumptions=asm, extra_rules=rules)
-                except T.PolyTooBig:
+                except (T.PolyTooBig, MemoryError):
                     v = solver.Verdict("undecided", "budget")
                 if v.status != "holds":
                     bad += 1
